@@ -364,6 +364,8 @@ type AnchorAssert struct {
 	Send   string // or: name of the channel whose send triggers it ("sent" is the value)
 	Call   string // or: name of the callee (function / closure variable) whose call triggers it (callee parameter names are bound to the arguments)
 	Clause *Clause
+	// Optional: "assert at call F optional: ..." - the event need not occur (a prohibition: if it occurs, the clause must hold)
+	Optional bool
 }
 
 // AnchorSet: ghost assignment "set g = expr after store X" / "after send ch".
@@ -659,6 +661,11 @@ func parseContractFile(path, pkgPath string) (*ContractFile, error) {
 				i := strings.Index(r, ":")
 				if i < 0 {
 					return nil, fmt.Errorf("%s:%d: assert syntax", path, ln+1)
+				}
+				if strings.HasSuffix(strings.TrimSpace(r[:i]), " optional") {
+					aa.Optional = true
+					r = strings.TrimSpace(strings.TrimSuffix(strings.TrimSpace(r[:i]), " optional")) + r[i:]
+					i = strings.Index(r, ":")
 				}
 				c, err := mkClause(r[i+1:])
 				if err != nil {
